@@ -260,7 +260,14 @@ func init() {
 	}
 }
 
-func extLogNop(fr *frame, a []value) value { return iface{} }
+// The logger is a synchronisation point of the real program (it takes a lock and writes): under
+// symbolic scheduling another goroutine may run here.
+func extLogNop(fr *frame, a []value) value {
+	if fr.i.sched != nil {
+		fr.i.sched.yieldPoint()
+	}
+	return iface{}
+}
 
 // condExternals: functions summarised only when an operand is symbolic
 // (formatting of symbolic times for log messages); concrete calls run the real code.
